@@ -37,7 +37,7 @@ THEOREMS = [
     "Klong.C20.route_exactly_once",
     "Klong.C20.failure_contained",
     "Klong.C20.unknown_path_no_handler",
-    "Klong.C20.unknown_path_no_handler'",
+    "Klong.C20.unknown_key_no_handler",
     "Klong.C20.after_shutdown_no_answer",
     "Klong.C20.late_capture_breaks",
     "Klong.C20.Ws.ws_exactly_once_in_order_partial",
@@ -460,7 +460,7 @@ def run_web_scenario(ctx, real, hl, drv, sc):
                         ctx.oracle_fail("web:route:body", case, exp[1], body,
                                         "the response body is the text of the handler's result")
                     after_failure = exp[0] == "400"
-                    impl = f"status={status} body={hx(body) if status in ('200', '400') else ''} log={jhx(log)}"
+                    impl = f"ok status={status} body={hx(body) if status in ('200', '400') else ''} log={jhx(log)}"
                     ctx.bump("web:req:" + exp[0])
                     ctx.bump("web:params:" + param_class(params))
                     if drv:
@@ -491,8 +491,8 @@ def run_web_scenario(ctx, real, hl, drv, sc):
                     ctx.bump(f"web:webc:{exp}")
                     if drv:
                         r = drv.ask("webc")
-                        if r != f"ret={ret}":
-                            ctx.mismatch("Klong.C20.step webc vs eval_sys_fn_shutdown_web_server", case, r, f"ret={ret}")
+                        if r != f"ok ret={ret}":
+                            ctx.mismatch("Klong.C20.step webc vs eval_sys_fn_shutdown_web_server", case, r, f"ok ret={ret}")
                             return
             ctx.count(("web", json.dumps(sc, sort_keys=True)))
             ctx.bump(f"web:routes:{len(sc['get'])}get+{len(sc['post'])}post")
@@ -736,7 +736,7 @@ def run_ws_recv(ctx, real, hl, drv, sc):
             expected.append([cur, json.loads(s)])
             srv.push(batch)
             del batch[:]
-            wait_until(lambda: any(e[2] == f"__sync_{sync}__" for e in real.wslog[n0:]))
+            wait_until(lambda: any(isinstance(e[2], str) and e[2] == f"__sync_{sync}__" for e in real.wslog[n0:]))
 
         for ev in sc["evs"]:
             case["evs"].append(ev)
@@ -954,14 +954,16 @@ def run_codec(ctx, drv, n):
             py = json.loads(t)
             if _has_nonfinite(py) or _has_lone_surrogate(py):
                 continue
-            want = json.dumps(py)
+            valid = True
         except (ValueError, RecursionError):
-            want = None
-        got = unhx(r[3:]) if r.startswith("ok=") else None
+            py, valid = None, False
+        got = unhx(r[8:]) if r.startswith("ok json=") else None
         ctx.count(("codec", t), nontrivial=len(t) > 4)
-        ctx.bump("codec:" + ("valid" if want is not None else "invalid"))
-        if got != want:
-            ctx.mismatch("Klong.C20.parse/render vs json.loads/json.dumps", dict(kind="codec", text=t), got, want)
+        ctx.bump("codec:" + ("valid" if valid else "invalid"))
+        # a real keeps its literal in the model (1E5 stays 1E5): compare values, not spellings
+        if (got is not None) != valid or (valid and not same(json.loads(got), py)):
+            ctx.mismatch("Klong.C20.parse/render vs json.loads/json.dumps", dict(kind="codec", text=t), got,
+                         json.dumps(py) if valid else None)
 
 
 def _has_nonfinite(v):
